@@ -26,6 +26,7 @@ func propC11() Property {
 			{ID: "C11-R3", Desc: "BodyLength guard", Min: 2, Run: c11R3},
 			{ID: "C11-R4", Desc: "length exclusion sets (shared with C10-R3)", Min: 3, Run: c10R3},
 			{ID: "C11-R5", Desc: "section routing of parsed fields", Min: 3, Run: c11R5},
+			{ID: "C11-R12", Desc: "the parser hands on exactly the field entries it extracted", Min: 1, Run: c11R12},
 			{ID: "C11-R11", Desc: "section classifiers ask the built-in table first and return its yes", Min: 2, Run: c11R11},
 			{ID: "C11-R6", Desc: "tag/value separator is the first '='", Min: 4, Run: c11R6},
 			{ID: "C11-R7", Desc: "constant-tag accesses address the section the parser files the tag in", Min: 20, Run: sectionAccessRule},
